@@ -411,7 +411,7 @@ func runC14(e *core.Env, s *c14Scenario) {
 		var accepted uint32
 		ran := map[uint32]int{}
 		for _, rec := range recs {
-			if !rec.sent || rec.conn != p.N {
+			if !rec.sent || rec.spec.Conn != c {
 				continue
 			}
 			n := len(w.invByTag[rec.tag])
@@ -424,7 +424,7 @@ func runC14(e *core.Env, s *c14Scenario) {
 			e.Violate("final_goaway_id", "conn %d: final GOAWAY last-stream-id is %d but the highest stream id the server accepted (a handler ran for it) is %d", c, final.last, accepted)
 		}
 		for _, rec := range recs {
-			if !rec.sent || rec.conn != p.N {
+			if !rec.sent || rec.spec.Conn != c {
 				continue
 			}
 			n := ran[rec.id]
